@@ -750,6 +750,16 @@ func (iqr *IQR) Sort(sortColumns []string, less func(*Record, *Record) bool, lim
 		if err != nil {
 			return err
 		}
+
+		if len(sortColumnValues[i]) < iqr.NumberOfRecords() {
+			// The column is not known to this IQR (ReadColumn returns no values for an
+			// unknown column when there are no RRCs): every record has a missing value.
+			values := make([]sutils.CValueEnclosure, iqr.NumberOfRecords())
+			for j := range values {
+				values[j] = *backfillCVal
+			}
+			sortColumnValues[i] = values
+		}
 	}
 
 	records := make([]*Record, iqr.NumberOfRecords())
